@@ -1243,8 +1243,8 @@ def dddmp_parser_model(P, R):
             n += 1
             lines = ['.ver DDDMP-2.0\n', '.nnodes 4\n', '.nodes\n',
                      f'1 {info[0]} 1 0 0\n',
-                     f'2 {info[1]} 4 1 -1\n',
-                     f'3 {info[2]} 2 1 2\n',
+                     f'2 {info[1]} 2 1 -1\n',
+                     f'3 {info[2]} 1 1 2\n',
                      (f'4 {info[3]} 0 -2 3\n' if then_complemented
                       else f'4 {info[3]} 0 2 -3\n'),
                      '.end\n']
@@ -1253,7 +1253,12 @@ def dddmp_parser_model(P, R):
             prm = [p for p in body.params if p != 'self']
             env = {'self': interp.Sym('self'),
                    'self.info2permid': dict(table), 'self.bdd': dict(),
-                   'self.n_nodes': 4, prm[0]: 'file.dddmp'}
+                   'self.n_nodes': 4, prm[0]: 'file.dddmp',
+                   'self.n_support_vars': 3, 'self.n_vars': 5,
+                   'self.n_roots': 2,
+                   'self.support_vars': [s_[0] for s_ in support],
+                   'self.var_ids': [s_[1] for s_ in support],
+                   'self.permuted_var_ids': [s_[2] for s_ in support]}
             what = f'node lines {[x.strip() for x in lines[3:-1]]}'
             try:
                 out, m = interp.run_function(body.node, env, stubs)
@@ -1285,6 +1290,31 @@ def dddmp_parser_model(P, R):
                         f'{what} (id info index THEN ELSE): the node '
                         f'table is {got}; (level, ELSE, THEN) gives '
                         f'{want}'))
+    # a file over one variable: the terminal row (`1 T 1 0 0` as CUDD
+    # writes it) and one node
+    n += 1
+    lines = ['.ver DDDMP-2.0\n', '.nnodes 2\n', '.nodes\n',
+             '1 T 1 0 0\n', '2 a 0 1 -1\n', '.end\n']
+    stubs = ClassStubs(P, 'dd.dddmp.Parser', extra={
+        'open': lambda m, c, a, k, lines=lines: iter(lines)})
+    prm = [p for p in body.params if p != 'self']
+    env = {'self': interp.Sym('self'),
+           'self.info2permid': {'a': 0, 'T': 1}, 'self.bdd': dict(),
+           'self.n_nodes': 2, prm[0]: 'file.dddmp',
+           'self.n_support_vars': 1, 'self.n_vars': 1, 'self.n_roots': 1,
+           'self.support_vars': ['a'], 'self.var_ids': [0],
+           'self.permuted_var_ids': [0]}
+    try:
+        out, m = interp.run_function(body.node, env, stubs)
+    except interp.Unknown as e:
+        R.undecided('R-ROLE', body.qualname, 'node-line model', str(e))
+        return
+    want = {1: (1, None, None), 2: (0, -1, 1)}
+    if out[0] == 'raise' or m.env.get('self.bdd') != want:
+        problems.setdefault('node-line', (
+            f'node lines {[x.strip() for x in lines[3:-1]]} of a file over '
+            f'one variable: {out[0]} {out[1]!r}, node table '
+            f'{m.env.get("self.bdd")}; (level, ELSE, THEN) gives {want}'))
     rules = {'swapped-edges': 'R-ROLE', 'node-line': 'R-ROLE',
              'complemented-then': 'R-ROLE'}
     for sub, msg in sorted(problems.items()):
@@ -1734,7 +1764,9 @@ def pickle_roundtrip_model(P, R):
             if shape == 'list':
                 roots = [roots_abs[0], -roots_abs[1], roots_abs[-1]]
             elif shape == 'dict':
-                roots = {'f': -roots_abs[0], 'g': roots_abs[2]}
+                # (names not listed in alphabetical order)
+                roots = {'g': -roots_abs[0], 'f': roots_abs[2],
+                         'h': roots_abs[1]}
             else:
                 roots = None
             written = []
@@ -2111,19 +2143,25 @@ def reorder_model(P, R):
         q = 'dd.bdd._sort_to_order'
         for start in perms:
             for target in perms:
-                mdl = _OrderModel(start, target)
-                order = {v: k for k, v in enumerate(target)}
-                f, (out, m) = run(q, mdl, [mdl.handle(), dict(order)])
-                what = f'order {list(start)} sorted to {list(target)}'
-                if mdl.complaints:
-                    problems.setdefault((q, 'non-adjacent-swap'),
-                                        f'{what}: {mdl.complaints[0]}')
-                elif out[0] == 'raise':
-                    problems.setdefault((q, 'raises'),
-                                        f'{what}: raises {out[1]}')
-                elif mdl.vars != order:
-                    problems.setdefault((q, 'order-not-reached'), (
-                        f'{what}: ends with {mdl.order()}'))
+                # (the mapping listed by level, by name, and bottom up:
+                # the order in which a mapping lists its entries is not
+                # part of what it asks for)
+                for listed in (list(target), sorted(target),
+                               list(reversed(target))):
+                    mdl = _OrderModel(start, target)
+                    order = {v: target.index(v) for v in listed}
+                    f, (out, m) = run(q, mdl, [mdl.handle(), dict(order)])
+                    what = (f'order {list(start)} sorted to the mapping '
+                            f'{order}')
+                    if mdl.complaints:
+                        problems.setdefault((q, 'non-adjacent-swap'),
+                                            f'{what}: {mdl.complaints[0]}')
+                    elif out[0] == 'raise':
+                        problems.setdefault((q, 'raises'),
+                                            f'{what}: raises {out[1]}')
+                    elif mdl.vars != order:
+                        problems.setdefault((q, 'order-not-reached'), (
+                            f'{what}: ends with {mdl.order()}'))
         # ---- reorder_to_pairs: disjoint pairs
         q = 'dd.bdd.reorder_to_pairs'
         pairings = [{'a': 'b'}, {'a': 'c'}, {'d': 'a'}, {'b': 'd'},
@@ -2753,23 +2791,28 @@ def operations_model(P, R, which=None):
                     (T[3], T[6], {'xp': 'x', 'yp': 'y'}, ['x', 'y']),
                     (T[2], T[7], {'xp': 'x', 'yp': 'y'}, ['x', 'y']),
                     (T[0], 1, {'xp': 'x'}, ['x']),
+                    # a renamed variable that is itself quantified
+                    (T[0], T[4], {'xp': 'x'}, ['x', 'y', 'xp']),
+                    (T[1], T[5], {'xp': 'x', 'yp': 'y'}, ['x', 'y', 'yp']),
                 ]
                 lv = {v: k for k, v in enumerate(order)}
                 for trans, source, mp, qv in cases:
                     # (the variables to quantify by name, and by level
                     # with the renaming still by name: both are accepted)
-                    for qarg in (list(qv), [lv[q] for q in qv]):
+                    for qarg, forall in ((list(qv), False),
+                                         ([lv[q] for q in qv], False),
+                                         (list(qv), True)):
                         obj = fresh(base)
                         out, _ = call(img, obj, [
                             trans, source, dict(mp), qarg, obj,
-                            False], method=False)
+                            forall], method=False)
                         conj = tuple(p and q for p, q in
                                      zip(tt[trans], tt[source]))
-                        want = ren(quant(conj, qv, False), mp)
+                        want = ren(quant(conj, qv, forall), mp)
                         check((img, 'image'),
                               f'order {order}: image(trans={trans}, '
                               f'source={source}, rename={mp}, '
-                              f'qvars={qarg})',
+                              f'qvars={qarg}, forall={forall})',
                               obj, ext, names, out, want)
                 pcases = [
                     (T[0], T[4], {'x': 'xp'}, ['xp']),
@@ -2784,17 +2827,20 @@ def operations_model(P, R, which=None):
                 for trans, target, mp, qv in pcases:
                     if any(abs(lv[a] - lv[b]) != 1 for a, b in mp.items()):
                         continue
-                    obj = fresh(base)
-                    out, _ = call(pre, obj, [
-                        trans, target, dict(mp), list(qv), obj, False],
-                        method=False)
-                    rt = ren(tt[target], mp)
-                    conj = tuple(p and q for p, q in zip(tt[trans], rt))
-                    want = quant(conj, qv, False)
-                    check((pre, 'preimage'),
-                          f'order {order}: preimage(trans={trans}, '
-                          f'target={target}, rename={mp}, qvars={qv})',
-                          obj, ext, names, out, want)
+                    for forall in (False, True):
+                        obj = fresh(base)
+                        out, _ = call(pre, obj, [
+                            trans, target, dict(mp), list(qv), obj,
+                            forall], method=False)
+                        rt = ren(tt[target], mp)
+                        conj = tuple(p and q for p, q in
+                                     zip(tt[trans], rt))
+                        want = quant(conj, qv, forall)
+                        check((pre, 'preimage'),
+                              f'order {order}: preimage(trans={trans}, '
+                              f'target={target}, rename={mp}, qvars={qv}, '
+                              f'forall={forall})',
+                              obj, ext, names, out, want)
     except interp.Unknown as e:
         R.undecided('R-OPTAB', 'dd.bdd.BDD (operations)',
                     'operations model', str(e))
@@ -4161,6 +4207,30 @@ def copy_model(P, R):
                     after(f, what, src0, src, tgt0, tgt, text, tnames,
                           [(u, x.attrs.get('node'))
                            for u, x in zip(rs, got)])
+        # a target that lacks a variable of the function (and has
+        # another one on that level): there is nothing right to return
+        rows_e = list(itertools.product((False, True), repeat=3))
+        t4, e4 = _build_manager(['a', 'e', 'c'], [], [])
+        for u in refs[2:]:
+            t_u = _tt_of(src0, u, names)
+            if not any(t_u[i] != t_u[rows.index((r[0], not r[1], r[2]))]
+                       for i, r in enumerate(rows)):
+                continue   # does not depend on b
+            for f in (cb, meth):
+                n += 1
+                src, tgt = fresh(src0), fresh(t4)
+                ps = [p for p in f.params if p != 'self']
+                if f is meth:
+                    env = {'self': src, ps[0]: u, ps[1]: tgt}
+                else:
+                    env = {ps[0]: u, ps[1]: src, ps[2]: tgt}
+                out, _ = interp.run_function(f.node, env, stubs, res_b)
+                if out[0] != 'raise':
+                    problems.setdefault((f, 'missing-variable'), (
+                        f'{f.name}({u}) from nodes {src0["self._succ"]} '
+                        'over a, b, c into a manager with the variables '
+                        f'a, e, c returns {out[1]!r}: the function depends '
+                        'on b, which the target does not have'))
     except (interp.Unknown, KeyError) as e:
         R.undecided('R-DOMAIN', 'copy between managers', 'copy model',
                     str(e))
@@ -4513,7 +4583,8 @@ def to_nx_model(P, R):
             rs = sorted(ext)
             succ = base['self._succ']
             for roots in ([rs[0]], [rs[0], -rs[1]], [rs[2], -rs[2]],
-                          [-rs[1]], [1], [rs[1], rs[2], rs[0]]):
+                          [-rs[1]], [1], [rs[1], rs[2], rs[0]], [rs[2]],
+                          [rs[1]]):
                 n += 1
                 obj = _object_manager(copy.deepcopy(
                     {k: v for k, v in base.items() if k != 'self'}))
@@ -4555,6 +4626,14 @@ def to_nx_model(P, R):
                     arcs.setdefault(u, set()).add(
                         (v, d.get('value'), bool(d.get('complement'))))
                 shape = None
+                if len(roots) == 1 and len(edges) != sum(
+                        len(x) for x in arcs.values()):
+                    # (with one root nothing is visited twice on the
+                    # reference tree; with several roots that share nodes
+                    # it records arcs again, which is not held against
+                    # it, see DESIGN section 6)
+                    shape = ('an arc is recorded more than once: '
+                             f'{sorted((u, v) for u, v, d in edges)}')
                 for u in nodes:
                     have = sorted(arcs.get(u, ()), key=repr)
                     if u == 1:
@@ -4739,6 +4818,378 @@ def r_mdd_collect(P, R):
 r_mdd_collect.NAME = 'R-PAIR(MDD collection model)'
 
 
+def operator_str_model(P, R):
+    """`str(u)` of a handle (`dd._abc.Operator.__str__`, which
+    `dd.autoref.Function` inherits) interpreted for handles on nodes of
+    both signs, the constants among them.  C05: the text is `@` followed
+    by the reference as `int(u)` gives it - what the documented `@n` form
+    of `add_expr` reads back through `_add_int` as the same reference."""
+    f = P.func('dd._abc.Operator.__str__', required=False)
+    if f is None:
+        return None
+    stubs = ClassStubs(P, 'dd.bdd.BDD')
+    resolver = interp.ModuleEnv(P, 'dd.autoref', stubs)
+    try:
+        fcls = resolver('Function')
+    except KeyError:
+        return None
+    if any(isinstance(st, ast.FunctionDef) and st.name == '__str__'
+           for st in fcls[1].body):
+        f = P.func('dd.autoref.Function.__str__')
+    res_f = resolver.module(f.qualname.rsplit('.', 2)[0]) or resolver
+    problems = dict()
+    n = 0
+    try:
+        for u in (1, -1, 2, -2, 3, -7, 12):
+            n += 1
+            h = interp.Sym('Function', {'node': u, 'bdd': None,
+                                        'manager': None})
+            h.cls = fcls
+            out, _ = interp.run_function(f.node, {'self': h}, stubs, res_f)
+            if out[0] != 'return' or out[1] != f'@{u}':
+                problems.setdefault('text', (
+                    f'str() of a handle on {u} gives {out[0]} '
+                    f'{out[1]!r}, not {"@" + str(u)!r}: `add_expr` would '
+                    'read it back as another reference'))
+    except interp.Unknown as e:
+        R.undecided('R-FORMAT', f.qualname, 'reference text model', str(e))
+        return None
+    for sub, msg in sorted(problems.items()):
+        R.violation('R-FORMAT', f'str-{sub}', f.qualname, '__str__', msg,
+                    unit=f.unit.rel, line=f.lineno)
+    if not problems:
+        R.holds('R-FORMAT', f.qualname,
+                f'reference text model ({n} handles): str() gives @ and '
+                'the signed reference')
+    return n
+
+
+def r_operator_str(P, R):
+    n = operator_str_model(P, R)
+    if n is not None:
+        R.floor('R-FORMAT handles of the reference text model', n, 5)
+r_operator_str.NAME = 'R-FORMAT(reference text model)'
+
+
+def manager_copy_model(P, R):
+    """`BDD.__copy__` interpreted (with the constructor it calls) on
+    managers that hold nodes.  The clone has the same variables, levels,
+    nodes, unique table, counts, next free number and roots as the
+    original - so that it is reduced and consistent and finds every node
+    it holds - in containers of its own; the original is untouched."""
+    import itertools
+    f = P.func('dd.bdd.BDD.__copy__', required=False)
+    if f is None:
+        return None
+    stubs = ClassStubs(P, 'dd.bdd.BDD', extra={
+        '_request_reordering': lambda m, c, a, k: None})
+    resolver = interp.ModuleEnv(P, 'dd.bdd', stubs)
+    rows = list(itertools.product((False, True), repeat=3))
+    tts = [tuple(bool(a and not b) for a, b, c in rows),
+           tuple(bool(b if a else c) for a, b, c in rows)]
+    problems = dict()
+    n = 0
+    try:
+        for order, tables in ((['a', 'b', 'c'], tts), (['c', 'a', 'b'], tts),
+                              (['a'], []), ([], [])):
+            n += 1
+            base, ext = _build_manager(order, tables, range(len(tables)))
+            obj = _object_manager(copy.deepcopy(
+                {k: v for k, v in base.items() if k != 'self'}))
+            obj.attrs['roots'] = set(ext)
+            before = copy.deepcopy(obj.attrs)
+            out, _ = interp.run_function(
+                f.node, {'self': obj}, stubs, resolver)
+            what = f'variables {order}, nodes {base["self._succ"]}'
+            r = out[1]
+            if out[0] != 'return' or not isinstance(r, interp.Sym) or \
+                    not isinstance(r.attrs, dict) or r is obj:
+                problems.setdefault('raises', (
+                    f'{what}: {out[0]} {out[1]!r}'))
+                continue
+            for k in ('vars', '_level_to_var', '_succ', '_pred', '_ref',
+                      '_min_free', 'roots', 'max_nodes'):
+                if r.attrs.get(k) != before[k]:
+                    problems.setdefault('differs', (
+                        f'{what}: the clone has {k} = {r.attrs.get(k)!r}, '
+                        f'the original {before[k]!r}'))
+                    break
+                if isinstance(before[k], (dict, set)) and \
+                        r.attrs.get(k) is obj.attrs[k]:
+                    problems.setdefault('shared', (
+                        f'{what}: the clone shares the container {k} '
+                        'with the original'))
+                    break
+            if obj.attrs != before:
+                problems.setdefault('original-changed', (
+                    f'{what}: the original changed'))
+    except (interp.Unknown, KeyError) as e:
+        R.undecided('R-INVMAP', f.qualname, 'clone model', str(e))
+        return None
+    for sub, msg in sorted(problems.items()):
+        R.violation('R-INVMAP', f'clone-{sub}', f.qualname, '__copy__',
+                    msg, unit=f.unit.rel, line=f.lineno)
+    if not problems:
+        R.holds('R-INVMAP', f.qualname,
+                f'clone model ({n} managers): every table of the original '
+                'in a container of its own; the original untouched')
+    return n
+
+
+def r_manager_copy(P, R):
+    n = manager_copy_model(P, R)
+    if n is not None:
+        R.floor('R-INVMAP managers of the clone model', n, 4)
+r_manager_copy.NAME = 'R-INVMAP(clone model)'
+
+
+def json_reordering_model(P, R):
+    """`dd._copy._load_json` interpreted on an empty file (which it
+    refuses) and on a file of one header line, against a manager that
+    records `configure`: whatever `load_order` is, whatever the way out,
+    the reordering switch of the manager is afterwards what it was before
+    the call (C09: dynamic reordering is still enabled afterwards; C17:
+    a failed load changes nothing)."""
+    f = P.func('dd._copy._load_json', required=False)
+    if f is None:
+        return None
+    resolver = interp.ModuleEnv(P, 'dd._copy')
+    prm = list(f.params)
+    problems = dict()
+    n = 0
+    try:
+        for lines in ([], ['{\n']):
+            for load_order in (False, True):
+                for before in (True, False):
+                    n += 1
+                    state = {'reordering': before}
+
+                    def configure(m, call, args, kw):
+                        old = dict(state)
+                        if 'reordering' in kw:
+                            state['reordering'] = kw['reordering']
+                        return old
+                    stubs = {'configure': configure,
+                             'assert_consistent': lambda m, c, a, k: None}
+                    mgr = interp.Sym('manager', {})
+                    env = {prm[0]: iter(list(lines)), prm[1]: mgr,
+                           prm[2]: load_order, prm[3]: dict()}
+                    out, _ = interp.run_function(
+                        f.node, env, stubs, resolver)
+                    if state['reordering'] is not before:
+                        problems.setdefault('reordering-left', (
+                            f'_load_json on a file of {len(lines)} line(s) '
+                            f'with load_order={load_order} ends '
+                            f'({out[0]}) with reordering = '
+                            f'{state["reordering"]!r}; it was {before!r} '
+                            'before the call'))
+    except (interp.Unknown, KeyError) as e:
+        R.undecided('R-REORD', f.qualname, 'switch model', str(e))
+        return None
+    for sub, msg in sorted(problems.items()):
+        R.violation('R-REORD', sub, f.qualname, 'configure', msg,
+                    unit=f.unit.rel, line=f.lineno)
+    if not problems:
+        R.holds('R-REORD', f.qualname,
+                f'switch model ({n} loads): the reordering switch is '
+                'afterwards what it was before, on every way out')
+    return n
+
+
+def r_json_reordering(P, R):
+    n = json_reordering_model(P, R)
+    if n is not None:
+        R.floor('R-REORD loads of the switch model', n, 8)
+r_json_reordering.NAME = 'R-REORD(json switch model)'
+
+
+def configure_model(P, R):
+    """`BDD.configure(**kw)` interpreted for every listing order of a
+    valid and an unknown parameter.  C17: a call that is refused (unknown
+    parameter) leaves the reordering switch as it was; C09: an accepted
+    call reports the switch as it was and sets it as asked."""
+    import itertools
+    f = P.func('dd.bdd.BDD.configure')
+    stubs = ClassStubs(P, 'dd.bdd.BDD')
+    resolver = interp.ModuleEnv(P, 'dd.bdd', stubs)
+    kwname = f.node.args.kwarg.arg if f.node.args.kwarg else None
+    if kwname is None:
+        return None
+    problems = dict()
+    n = 0
+    try:
+        for last_len in (None, 100):
+            for kw in ({'reordering': True}, {'reordering': False}, {},
+                       {'bogus': 1}, {'reordering': True, 'bogus': 1},
+                       {'bogus': 1, 'reordering': True},
+                       {'reordering': False, 'bogus': 1},
+                       {'bogus': 1, 'reordering': False}):
+                n += 1
+                base, _ = _build_manager(['a', 'b'], [], [])
+                obj = _object_manager(copy.deepcopy(
+                    {k: v for k, v in base.items() if k != 'self'}))
+                obj.attrs['_last_len'] = last_len
+                out, _ = interp.run_function(
+                    f.node, {'self': obj, kwname: dict(kw)}, stubs,
+                    resolver)
+                what = (f'configure(**{kw}) with reordering '
+                        f'{"on" if last_len is not None else "off"}')
+                now = obj.attrs.get('_last_len')
+                if 'bogus' in kw:
+                    if out[0] != 'raise':
+                        problems.setdefault('accepts-unknown', (
+                            f'{what} is accepted'))
+                    elif (now is None) != (last_len is None):
+                        problems.setdefault('refused-but-applied', (
+                            f'{what} is refused ({out[1]}) but leaves '
+                            'reordering '
+                            f'{"on" if now is not None else "off"}'))
+                    continue
+                if out[0] != 'return' or not isinstance(out[1], dict) or \
+                        out[1].get('reordering') is not (
+                            last_len is not None):
+                    problems.setdefault('report', (
+                        f'{what}: {out[0]} {out[1]!r}, not the switch as '
+                        'it was'))
+                elif 'reordering' in kw and (now is not None) is not \
+                        kw['reordering']:
+                    problems.setdefault('not-applied', (
+                        f'{what} leaves reordering '
+                        f'{"on" if now is not None else "off"}'))
+    except (interp.Unknown, KeyError) as e:
+        R.undecided('R-RAW', f.qualname, 'parameter model', str(e))
+        return None
+    for sub, msg in sorted(problems.items()):
+        R.violation('R-RAW', f'configure-{sub}', f.qualname, 'configure',
+                    msg, unit=f.unit.rel, line=f.lineno)
+    if not problems:
+        R.holds('R-RAW', f.qualname,
+                f'parameter model ({n} calls): a refused call changes '
+                'nothing, an accepted one reports and sets the switch')
+    return n
+
+
+def r_configure(P, R):
+    n = configure_model(P, R)
+    if n is not None:
+        R.floor('R-RAW calls of the parameter model', n, 12)
+r_configure.NAME = 'R-RAW(configure model)'
+
+
+def reorder_real_model(P, R):
+    """`dd.bdd.reorder(bdd, order)` and `reorder(bdd)` (sifting)
+    interpreted with everything they call - real swaps, collection - on
+    managers over three variables that hold referenced functions and
+    nodes nobody references any more, followed by a collection.  C07 /
+    C06 / C08: no refusal; the requested order holds; every referenced
+    node keeps its number and its function; tables and counts are
+    consistent after the reordering and after the collection; the
+    collection leaves exactly the nodes below the references."""
+    import itertools
+    f = P.func('dd.bdd.reorder')
+    cg = P.func('dd.bdd.BDD.collect_garbage')
+    stubs = ClassStubs(P, 'dd.bdd.BDD', extra={
+        '_request_reordering': lambda m, c, a, k: None,
+        'getEffectiveLevel': lambda m, c, a, k: 100})
+    resolver = interp.ModuleEnv(P, 'dd.bdd', stubs)
+    names = ['a', 'b', 'c']
+    rows = list(itertools.product((False, True), repeat=3))
+    tts = [tuple(bool(a != b) for a, b, c in rows),
+           tuple(bool(b if a else c) for a, b, c in rows),
+           tuple(bool(a or b) for a, b, c in rows),
+           tuple(bool(a) for a, b, c in rows),
+           tuple(bool((a != b) and c) for a, b, c in rows)]
+    prm = list(f.params)
+    problems = dict()
+    n = 0
+    try:
+        for start in (['a', 'b', 'c'], ['b', 'c', 'a']):
+            for kept in ([0, 1, 2, 3, 4], [3], [1, 3], [0, 4], [2]):
+                base, ext = _build_manager(
+                    start, tts, kept, keep_garbage=True)
+                for target in (['c', 'b', 'a'], ['b', 'a', 'c'],
+                               ['c', 'a', 'b'], None):
+                    n += 1
+                    obj = _object_manager(copy.deepcopy(
+                        {k: v for k, v in base.items() if k != 'self'}))
+                    order = None if target is None else {
+                        v: target.index(v) for v in sorted(target)}
+                    out, _ = interp.run_function(
+                        f.node, {prm[0]: obj, prm[1]: order}, stubs,
+                        resolver)
+                    what = (f'order {start}, nodes '
+                            f'{base["self._succ"]}, referenced '
+                            f'{sorted(ext)}: reorder('
+                            f'{"sifting" if order is None else order})')
+                    if out[0] == 'raise':
+                        problems.setdefault('raises', (
+                            f'{what}: raises {out[1]}'))
+                        continue
+                    if order is not None and obj.attrs['vars'] != order:
+                        problems.setdefault('order-not-reached', (
+                            f'{what}: ends with {obj.attrs["vars"]}'))
+                        continue
+                    stage = 'after the reordering'
+                    bad = None
+                    for step in (0, 1):
+                        env = {f'self.{k}': v
+                               for k, v in obj.attrs.items()}
+                        bad = _manager_complaints(env, dict(ext))
+                        if bad is None:
+                            for r_ in ext:
+                                if abs(r_) not in obj.attrs['_succ'] or \
+                                        _tt_obj(obj, r_, names) != _tt_of(
+                                            base, r_, names):
+                                    bad = (f'the referenced node {r_} '
+                                           'does not denote what it did')
+                        if bad or step:
+                            break
+                        o2, _ = interp.run_function(
+                            cg.node, {'self': obj, [
+                                p_ for p_ in cg.params
+                                if p_ != 'self'][0]: None}, stubs,
+                            resolver)
+                        stage = 'after the reordering and a collection'
+                        if o2[0] == 'raise':
+                            bad = f'the collection raises {o2[1]}'
+                            break
+                    if bad is None:
+                        succ = obj.attrs['_succ']
+                        live, todo = {1}, [abs(r_) for r_ in ext]
+                        while todo:
+                            x = todo.pop()
+                            if x in live:
+                                continue
+                            live.add(x)
+                            todo += [abs(succ[x][1]), abs(succ[x][2])]
+                        if set(succ) != live:
+                            bad = (f'the nodes {sorted(set(succ) - live)} '
+                                   'stay although nothing refers to them')
+                    if bad:
+                        problems.setdefault('tables', (
+                            f'{what}, {stage}: {bad}'))
+    except (interp.Unknown, KeyError) as e:
+        R.undecided('R-REORDER', f.qualname, 'reordering model', str(e))
+        return None
+    for sub, msg in sorted(problems.items()):
+        R.violation('R-REORDER', f'real-{sub}', f.qualname, 'reorder', msg,
+                    unit=f.unit.rel, line=f.lineno)
+    if not problems:
+        R.holds('R-REORDER', f.qualname,
+                f'reordering model ({n} calls with real swaps, on '
+                'managers that hold unreferenced nodes): order reached, '
+                'references keep their functions, tables and counts '
+                'consistent before and after a collection')
+    return n
+
+
+def r_reorder_real(P, R):
+    n = reorder_real_model(P, R)
+    if n is not None:
+        R.floor('R-REORDER calls of the real reordering model', n, 30)
+r_reorder_real.NAME = 'R-REORDER(real reordering model)'
+
+
 def dot_model(P, R):
     """`dd.bdd._to_dot(roots, bdd)` interpreted (with `dd._utils.DotGraph`)
     on small managers: the graph it builds must show, for every node
@@ -4769,7 +5220,7 @@ def dot_model(P, R):
             base, ext = _build_manager(order, funcs, range(len(funcs)))
             rs = sorted(ext)
             for roots in ([rs[0]], [rs[0], -rs[1]], [rs[2], -rs[2]],
-                          [-rs[1]], [1], None):
+                          [-rs[1]], [1], None, [-rs[1], rs[0], rs[2]]):
                 n += 1
                 obj = _object_manager(copy.deepcopy(
                     {k: v for k, v in base.items() if k != 'self'}))
